@@ -14,7 +14,6 @@ package main
 import (
 	"fmt"
 	"os"
-	"sort"
 	"sync/atomic"
 	"time"
 
@@ -40,7 +39,7 @@ func main() {
 	rep := report.New("C14", "exploration")
 	thorough := rep.Thorough()
 	start := time.Now()
-	budget := 75 * time.Second
+	budget := 100 * time.Second
 	if thorough {
 		budget = 25 * time.Minute
 	}
@@ -95,7 +94,7 @@ func main() {
 	var st pairStats
 	var us uriStats
 	var ps parseStats
-	distinctPairs := int64(0)
+	seen := map[string]bool{}
 
 	// components first: Component.Compare/Equal/Hash incl. the *Component argument form
 	var compPairs atomic.Int64
@@ -133,38 +132,33 @@ func main() {
 
 	xNames, _ := dedupe(allSeqs(exoticComps(), 2))
 	X := buildUniverse("exotic-types", 2, xNames, false)
+	X.markSeen(seen)
 	run(fmt.Sprintf("pairs (type-boundary comps, len<=2, %d names)", len(xNames)), func() (int64, bool) {
 		before := st.pairs.Load()
 		_, ok := X.singles(col, &st, deadline)
 		_, ok2 := X.pairs(col, &st, smp.of("exotic", 2), deadline, false)
-		if ok && ok2 {
-			distinctPairs += int64(len(xNames)) * int64(len(xNames)-1) / 2
-		}
+		X.addSeen(seen)
 		return st.pairs.Load() - before, ok && ok2
 	})
 
 	C := buildUniverse("core<=3", 3, uCore, false)
+	C.markSeen(seen)
 	run(fmt.Sprintf("pairs (core, len<=%d, %d names)", seqLen, len(uCore)), func() (int64, bool) {
 		before := st.pairs.Load()
 		_, ok := C.singles(col, &st, deadline)
 		_, ok2 := C.pairs(col, &st, smp.of("core", 3), deadline, false)
-		if ok && ok2 {
-			distinctPairs += int64(len(uCore)) * int64(len(uCore)-1) / 2
-		}
+		C.addSeen(seen)
 		return st.pairs.Load() - before, ok && ok2
 	})
 	collC, collEx := C.hashCollisions()
 
 	W := buildUniverse("wide<=2", 4, uWide, false)
+	W.markSeen(seen)
 	run(fmt.Sprintf("pairs (wide, len<=2, %d names)", len(uWide)), func() (int64, bool) {
 		before := st.pairs.Load()
 		_, ok := W.singles(col, &st, deadline)
 		_, ok2 := W.pairs(col, &st, smp.of("wide", 3), deadline, false)
-		if ok && ok2 {
-			// pairs of two core names of length ≤2 were already counted in the core universe
-			k := seqCount(len(c24), 2)
-			distinctPairs += int64(len(uWide))*int64(len(uWide)-1)/2 - k*(k-1)/2
-		}
+		W.addSeen(seen)
 		return st.pairs.Load() - before, ok && ok2
 	})
 	collW, collExW := W.hashCollisions()
@@ -176,14 +170,11 @@ func main() {
 	if thorough {
 		uMid := allSeqs(c40, 3)
 		M := buildUniverse("mid40<=3", 4, uMid, false)
+		M.markSeen(seen)
 		run(fmt.Sprintf("pairs (40 comps, len<=3, %d names)", len(uMid)), func() (int64, bool) {
 			before := st.pairs.Load()
 			_, ok := M.singles(col, &st, deadline)
 			_, ok2 := M.pairs(col, &st, smp.of("mid40", 2), deadline, false)
-			if ok && ok2 {
-				// names over the 24 core components (⊂ the 40) were already counted
-				distinctPairs += int64(len(uMid))*int64(len(uMid)-1)/2 - int64(len(uCore))*int64(len(uCore)-1)/2
-			}
 			return st.pairs.Load() - before, ok && ok2
 		})
 		collM, _ = M.hashCollisions()
@@ -232,11 +223,13 @@ func main() {
 	for _, i := range []int{7, 8, 11, 12, 13, 14, 15, 0} {
 		c := comps128[2*16+i] // generic
 		n := oname{c, {0x32, []byte{1}}, {1, []byte{0xab}}}
-		smp.of("uri", 8).Offer(fmt.Sprintf("[uri] %s -> String()=%q -> NameFromStr -> same name", n, real(n, 0).String()))
+		checkNameURI(col, &us, 5<<60|3<<40|int64(i), n, "sample")
+		back, err := enc.NameFromStr(real(n, 0).String())
+		smp.of("uri", 8).Offer(fmt.Sprintf("[uri] %s -> String()=%q -> NameFromStr -> %s err=%v same=%v", n, real(n, 0).String(), fromReal(back), err, sameName(back, n)))
 	}
 
 	// ---------- parsers ----------
-	maxLen := 5
+	maxLen := 4
 	if thorough {
 		maxLen = 6
 	}
@@ -283,7 +276,18 @@ func main() {
 	for _, o := range editNames {
 		addBase(real(o, 0).String())
 	}
-	for _, c := range compSet {
+	editComps := compSet
+	if !thorough {
+		// quick: the 128 universe components, the type-boundary ones, and the byte-value / escape
+		// extras under the generic type only
+		editComps = append(append([]ocomp{}, comps128...), exoticComps()...)
+		for _, c := range bcomps {
+			if c.typ == 8 || isDecConv(c.typ) && len(c.val) > 1 {
+				editComps = append(editComps, c)
+			}
+		}
+	}
+	for _, c := range editComps {
 		rc := realComp(c, 0)
 		addBase(rc.String())
 		addBase(rc.CanonicalString())
@@ -312,17 +316,13 @@ func main() {
 	structural := real(x, 0).Hash() == real(y, 0).Hash()
 
 	counts := col.flush(rep)
-	ckeys := make([]string, 0, len(counts))
-	for k := range counts {
-		ckeys = append(ckeys, k)
-	}
-	sort.Strings(ckeys)
+	distinctPairs := st.distinct.Load()
 	evals := st.evals.Load() + compPairs.Load()*6 + tripleCount + us.names.Load()*2 + us.comps.Load()*4 + us.uncovered.Load() + ps.calls.Load()
 	cov := report.Coverage{
 		"evaluations":                    evals,
 		"distinct_nontrivial":            distinctPairs + distinctURI.Load() + distinctStr,
 		"distinct_breakdown":             map[string]int64{"name_pairs": distinctPairs, "uri_names": distinctURI.Load(), "parser_strings": distinctStr},
-		"rule":                           "a case is one distinct input: an unordered pair of DISTINCT names of a completed pair universe (universes are duplicate-free by construction, verified by canonical key; pairs occurring in two universes are counted once), one non-empty covered name of the generated 128-component URI universe, or one string of the exhaustive string enumeration (distinct by construction: odometer over a duplicate-free alphabet). Identical-name pairs are trivial and not counted; edit-generated strings, byte-value contexts, parser-fed names and triples are NOT counted here because they can repeat (see the other counters)",
+		"rule":                           "a case is one distinct input: an unordered pair of DISTINCT names (distinct canonical keys) evaluated in one of the counted pair universes (type-boundary, core, wide, thorough: 40-set); a pair both of whose names already belonged to an earlier universe is not counted again, one non-empty covered name of the generated 128-component URI universe, or one string of the exhaustive string enumeration (distinct by construction: odometer over a duplicate-free alphabet). Identical-name pairs are trivial and not counted; edit-generated strings, byte-value contexts, parser-fed names and triples are NOT counted here because they can repeat (see the other counters)",
 		"exhaustive":                     exhaustive,
 		"phases":                         phases,
 		"samples":                        smp.list(),
